@@ -87,9 +87,10 @@ Definition dec_value (ds : list N) : N := fold_left (fun acc d => (10 * acc + d)
 Definition py_int (s : str) : option Z :=
   let s1 := strip_ws s in
   let '(neg, s2) := match s1 with
-                    | 43%N :: r => (false, r)
-                    | 45%N :: r => (true, r)
-                    | _ => (false, s1)
+                    | c :: r => if N.eqb c 43 then (false, r)            (* '+' *)
+                                else if N.eqb c 45 then (true, r)        (* '-' *)
+                                else (false, s1)
+                    | [] => (false, s1)
                     end in
   match parse_digits s2 with
   | None => None
